@@ -2,7 +2,9 @@ package worker
 
 import (
 	"fmt"
+	"io"
 	"os"
+	"os/exec"
 	"path/filepath"
 	"strings"
 	"testing"
@@ -156,7 +158,11 @@ func runC19RT(t *testing.T, sc *world.Scenario) *check.Result {
 		el := time.Since(start)
 		res.Probe("calls-judged")
 		if el > timeout+margin {
-			res.Violate("C19", "returns-in-time", "returns-in-time "+sig, 0, nil, "%s with timeout %s returned after %s (bound %s)", mode, timeout, el.Round(time.Millisecond), timeout+margin)
+			if overloaded() {
+				res.Probe("unjudged(machine too slow for this real-time case)")
+			} else {
+				res.Violate("C19", "returns-in-time", "returns-in-time "+sig, 0, nil, "%s with timeout %s returned after %s (bound %s)", mode, timeout, el.Round(time.Millisecond), timeout+margin)
+			}
 		}
 		if wantErr && o.err == nil {
 			res.Violate("C19", "error-reported", "error-reported "+sig, 0, nil, "%s: no error returned (output %q)", mode, trunc(o.out, 40))
@@ -164,7 +170,14 @@ func runC19RT(t *testing.T, sc *world.Scenario) *check.Result {
 		if !wantErr && !(either && o.err != nil) {
 			// a command that finished in time with exit status 0: its trimmed output
 			if o.err != nil {
-				res.Violate("C19", "output-returned", "output-returned "+sig, 0, nil, "%s with timeout %s: unexpected error %v after %s", mode, timeout, o.err, el.Round(time.Millisecond))
+				// a command that should finish in milliseconds ran into its deadline: before blaming fan2go,
+				// time the same command without fan2go in between - on an overloaded machine it may really
+				// take that long, and then this case cannot be judged
+				if el >= timeout-50*time.Millisecond && slowMachine(exe, timeout) {
+					res.Probe("unjudged(machine too slow for this real-time case)")
+				} else {
+					res.Violate("C19", "output-returned", "output-returned "+sig, 0, nil, "%s with timeout %s: unexpected error %v after %s", mode, timeout, o.err, el.Round(time.Millisecond))
+				}
 			} else if o.out != wantOut {
 				res.Violate("C19", "output-returned", "output-returned "+sig, 0, nil, "%s: output %q, want %q", mode, trunc(o.out, 40), trunc(wantOut, 40))
 			}
@@ -244,7 +257,11 @@ func runC19Conc(t *testing.T, sc *world.Scenario) *check.Result {
 			res.Probe("calls-judged")
 			sig := fmt.Sprintf("concurrent same-executable call=%s", o.kind)
 			if o.el > timeout+margin {
-				res.Violate("C19", "returns-in-time", "returns-in-time "+sig, 0, nil, "%d hanging and %d quick calls of one executable at the same time (timeout %s): a %s call returned after %s (bound %s)", hangers, quick, timeout, o.kind, o.el.Round(time.Millisecond), timeout+margin)
+				if overloaded() {
+					res.Probe("unjudged(machine too slow for this real-time case)")
+				} else {
+					res.Violate("C19", "returns-in-time", "returns-in-time "+sig, 0, nil, "%d hanging and %d quick calls of one executable at the same time (timeout %s): a %s call returned after %s (bound %s)", hangers, quick, timeout, o.kind, o.el.Round(time.Millisecond), timeout+margin)
+				}
 			}
 			if o.kind == "hang" && o.err == nil {
 				res.Violate("C19", "error-reported", "error-reported "+sig, 0, nil, "a call that ran into its deadline returned no error (output %q)", trunc(o.out, 40))
@@ -321,7 +338,11 @@ func runC19Seq(t *testing.T, sc *world.Scenario) *check.Result {
 			el := time.Since(start)
 			res.Probe("calls-judged")
 			if el > timeout+margin {
-				res.Violate("C19", "returns-in-time", "returns-in-time "+sig, i, nil, "call #%d (%s) of a sequence with %d timed-out calls before it returned after %s (bound %s)", i, kind, hangs, el.Round(time.Millisecond), timeout+margin)
+				if overloaded() {
+					res.Probe("unjudged(machine too slow for this real-time case)")
+				} else {
+					res.Violate("C19", "returns-in-time", "returns-in-time "+sig, i, nil, "call #%d (%s) of a sequence with %d timed-out calls before it returned after %s (bound %s)", i, kind, hangs, el.Round(time.Millisecond), timeout+margin)
+				}
 			}
 			if kind == "ok" && (o.err != nil || o.out != "7") {
 				res.Violate("C19", "output-returned", "output-returned "+sig, i, nil, "call #%d (healthy command, %d timed-out calls before it) returned %q, %v", i, hangs, trunc(o.out, 40), o.err)
@@ -345,6 +366,38 @@ func runC19Seq(t *testing.T, sc *world.Scenario) *check.Result {
 	res.Nontrivial = true
 	res.State(fmt.Sprintf("hangs>=4:%v", hangs >= 4))
 	return res
+}
+
+// slowMachine runs the command directly (no fan2go code involved) and reports whether it needs more than
+// half of the timeout on this machine right now.
+func slowMachine(exe string, timeout time.Duration) bool {
+	start := time.Now()
+	c := exec.Command(exe)
+	c.Stdout, c.Stderr = io.Discard, io.Discard
+	done := make(chan struct{})
+	go func() { _ = c.Run(); close(done) }()
+	select {
+	case <-done:
+	case <-time.After(10 * time.Second):
+		if c.Process != nil {
+			_ = c.Process.Kill()
+		}
+	}
+	return time.Since(start) > timeout/2
+}
+
+// overloaded: starting and reaping a trivial process takes more than a quarter of a second on this machine
+// right now: real-time bounds of fractions of a second cannot be judged then.
+func overloaded() bool {
+	worst := time.Duration(0)
+	for i := 0; i < 3; i++ {
+		start := time.Now()
+		_ = exec.Command("/bin/true").Run()
+		if d := time.Since(start); d > worst {
+			worst = d
+		}
+	}
+	return worst > 250*time.Millisecond
 }
 
 func trunc(s string, n int) string {
